@@ -859,21 +859,8 @@ class RealBackend(object):
             self.viol("C08", "active-task", "scheduler.active_task differs from get_active_task() in %s" % inst.token)
 
     def _is_awaited(self, inst):
-        if inst is self.root:
-            return True
-        t = inst.task
-        for other in self.insts.values():
-            if other is inst:
-                continue
-            if other.syncing is not None and (other.syncing is inst or other.syncing is t):
-                return True
-            if other.awaiting is not None and t is not None:
-                for leaf, _, _ in flatten(other.awaiting):
-                    if leaf is t:
-                        return True
-        if self.root_waiting is not None and self.root_waiting is inst:
-            return True
-        return False
+        # set by pre_yield / sync / run for everything that has been yielded or waited on
+        return inst is self.root or inst.shared_awaited or (self.root_waiting is not None and self.root_waiting is inst)
 
     root_waiting = None
 
@@ -890,6 +877,7 @@ class RealBackend(object):
             if isinstance(leaf, A.AsyncTask):
                 ci = _inst_of(leaf)
                 if ci is not None:
+                    ci.shared_awaited = True
                     # only tasks created by this very yield expression: nobody else can hold (and
                     # await) them yet, so they are "first scheduled by being yielded together"
                     if plain and not ci.started and not leaf.is_computed() and ci.parent is inst \
@@ -952,6 +940,7 @@ class RealBackend(object):
             self.insts[child.token] = child
             self.ev("create", child.token)
             inst.syncing = child
+            child.shared_awaited = True
             ext = [child, len(self.trace), None]
             self.extents.append(ext)
             try:
@@ -968,6 +957,8 @@ class RealBackend(object):
             raise TypeError("sync on non-future")
         inst.syncing = fut
         ci = _inst_of(fut) if isinstance(fut, A.AsyncTask) else None
+        if ci is not None:
+            ci.shared_awaited = True
         ext = [ci, len(self.trace), None]
         if ci is not None:
             self.extents.append(ext)
@@ -1069,7 +1060,12 @@ class RealBackend(object):
         """C06 activity oracle at a step-begin of U (U is chain[-1])."""
         chain_ids = {id(i) for i in self.chain}
         reach_cache = {}
-        for cm in self.live_ctx:
+        live = self.live_ctx
+        if len(live) * len(self.insts) > 4000:
+            # bounded cost on large programs: a rotating window of the live contexts
+            self._ctx_rot = (getattr(self, "_ctx_rot", 0) + 3) % len(live)
+            live = (live + live)[self._ctx_rot:self._ctx_rot + 3]
+        for cm in live:
             T = cm.owner
             if id(T) in chain_ids:
                 if not cm.active:
